@@ -1316,10 +1316,14 @@ class DateTimeValidator(validators.DateValidator):
         if value is None:
             return None
         if isinstance(value,
-                      (datetime.datetime, datetime.date,
-                       datetime.time, sqlbuilder.SQLExpression)):
+                      (datetime.datetime, sqlbuilder.SQLExpression)):
             return value
-        if hasattr(value, "strftime"):
+        if isinstance(value, datetime.date):
+            # a date in a datetime column means midnight of that day;
+            # stored as a bare date it could not be read back
+            return datetime.datetime(value.year, value.month, value.day)
+        if hasattr(value, "strftime") and \
+                not isinstance(value, datetime.time):
             return value.strftime(self.format)
         raise validators.Invalid(
             "expected a datetime in the DateTimeCol '%s', "
@@ -1542,6 +1546,11 @@ class DateValidator(DateTimeValidator):
         value = super(DateValidator, self).to_python(value, state)
         if isinstance(value, datetime.datetime):
             value = value.date()
+        elif isinstance(value, datetime.time):
+            raise validators.Invalid(
+                "expected a date in the DateCol '%s', "
+                "got %s %r instead" % (
+                    self.name, type(value), value), value, state)
         return value
 
     from_python = to_python
@@ -1619,6 +1628,11 @@ class TimeValidator(DateTimeValidator):
         value = super(TimeValidator, self).to_python(value, state)
         if isinstance(value, datetime.datetime):
             value = value.time()
+        elif isinstance(value, datetime.date):
+            raise validators.Invalid(
+                "expected a time in the TimeCol '%s', "
+                "got %s %r instead" % (
+                    self.name, type(value), value), value, state)
         return value
 
     from_python = to_python
